@@ -370,6 +370,66 @@ def is_ascii(m, st, inst, args, t):
     raise Fork([("ascii", setv(True)), ("non-ascii", setv(False))], "whether a region is ASCII")
 
 
+ASCII_WS = mask_of(lambda b: b in (9, 10, 11, 12, 13, 32))
+
+
+@prim("core::str::<impl str>::trim_start", "core::str::<impl str>::trim_end", "core::str::<impl str>::trim",
+      "core::slice::ascii::<impl [u8]>::trim_ascii_start", "core::slice::ascii::<impl [u8]>::trim_ascii_end", "core::slice::ascii::<impl [u8]>::trim_ascii")
+def str_trim(m, st, inst, args, t):
+    s = args[0]
+    if s[0] != "fat":
+        raise Unanalysable("trim of %s" % s[0])
+    if m.hooks is not None:
+        m.hooks.on_region_scan(m, st, s, "trim scan")
+    name = inst["npath"].split("::")[-1]
+    c = summ_content(s[3])
+    if s[3] is not None and s[3][0] == "empty":
+        return s
+    if c is None or (c & ~ASCII):
+        raise Unanalysable("%s over a region that may hold non-ASCII bytes" % name)
+    front = "start" in name or name in ("trim", "trim_ascii")
+    back = "end" in name or name in ("trim", "trim_ascii")
+    if not (c & ASCII_WS):
+        return s  # nothing to strip anywhere
+    first = s[3][2] if s[3][0] == "reg" else FULL
+    if front and not back and not (first & ASCII_WS):
+        return s
+    # an unknown number of bytes is stripped: a sub-slice with symbolic bounds
+    pb = m.p.ptr_bytes * 8
+    n = len(st.rsyms) + 1
+    k = "R%d" % n
+    st.rsyms[k] = (s[1], -1, s[2])
+    lo = ("sym", ((k, 1),), 0, pb, False) if front else mk_int(0, pb)
+    nloc = m.elem_loc(st, s[1], lo) if front else s[1]
+    nlen = ("sym", ((k + "n", 1),), 0, pb, False)
+    return ("fat", nloc, nlen, ("reg", c, (first & ~ASCII_WS & FULL) if front else first, None))
+
+
+@prim("core::slice::<impl [T]>::contains")
+def slice_contains(m, st, inst, args, t):
+    s, needle = args[0], args[1]
+    if s[0] != "fat":
+        raise Unanalysable("contains on %s" % s[0])
+    if m.hooks is not None:
+        m.hooks.on_region_scan(m, st, s, "contains scan")
+        m.hooks.on_lookahead_scan(m, st, s, "contains scan")
+    c = summ_content(s[3])
+    nv = m.read_loc(st, needle[1], None) if needle[0] == "ptr" else needle
+    if c is not None and nv[0] == "int":
+        if not ((c >> (nv[1] & 0xFF)) & 1):
+            return FALSE
+    i = m.choose(st, "contains@%s" % m.where(st), ["absent", "present"])
+    if i == 0 and nv[0] == "int" and s[1][0] == "B" and m.buf_rel(st, s[1]) == 0:
+        # the whole remaining input is free of that byte: constrain the look-ahead cells and every
+        # cell materialised later
+        bit = 1 << (nv[1] & 0xFF)
+        for c_ in st.tape:
+            if not st.refine(c_, FULL & ~bit):
+                raise Violation("infeasible")
+        st.flags["tape_excl"] = st.flags.get("tape_excl", 0) | bit
+    return mk_bool(i == 1)
+
+
 # ---- iterators over slices ---------------------------------------------------------------------
 @prim("core::slice::<impl [T]>::iter")
 def slice_iter(m, st, inst, args, t):
